@@ -197,15 +197,6 @@ Definition v_mini (st : mini) : val :=
       vNs (akeys (ms_pend st));
       match ms_mask st with Some x => vN x | None => VT "none" end].
 
-Fixpoint mini_run (sp : sparams) (enc : bytes -> bytes) (st : mini) (ops : list (N * bytes))
-  : mini * list (outcome unit) :=
-  match ops with
-  | [] => (st, [])
-  | (c, b) :: r =>
-      let '(st1, o) := ms_store sp enc st b c in
-      let '(st2, os) := mini_run sp enc st1 r in (st2, o :: os)
-  end.
-
 Definition d_c04 (op : string) (a : val) : option val :=
   match op, a with
   | "c04_run", VL [cs; sz; cf; tb; ops] =>
@@ -232,7 +223,7 @@ Definition d_c04 (op : string) (a : val) : option val :=
           match m1 with
           | _ :: _ => Some (v_miss m1)
           | [] =>
-              let '(st, os) := mini_run (c_sp c) (enc_of (c_dgz c) t) ms_init ops in
+              let '(st, os) := ms_run (c_sp c) (enc_of (c_dgz c) t) ms_init ops in
               if dc then
                 let '(st', r) := ms_close (c_sp c) st in
                 Some (VL [VT "ok"; v_unit_outcomes os; v_outcome (fun _ => VT "none") r; v_mini st'])
